@@ -252,7 +252,7 @@ var mutations = []mutation{
 		if len(es) == 0 {
 			return false
 		}
-		pick(r, es)["extra"] = "x"
+		pick(r, es)[pick(r, []string{"extra", "", "ID", "id ", "\x00"})] = "x"
 		return true
 	}},
 	{"ev-hex", func(r *Rng, root []any) bool {
@@ -309,7 +309,7 @@ var mutations = []mutation{
 		if len(fs) == 0 {
 			return false
 		}
-		pick(r, fs)[pick(r, []string{"#ab", "#", "#1", "#é", "foo", "IDS", "search", "#-"})] = []any{"x"}
+		pick(r, fs)[pick(r, []string{"#ab", "#", "#1", "#é", "foo", "IDS", "search", "#-", "", "i", "##", "\x00", "#\x00", "limit "})] = pick(r, []any{[]any{"x"}, []any{}, nil, json.Number("0")})
 		return true
 	}},
 	{"f-type", func(r *Rng, root []any) bool {
